@@ -7,6 +7,8 @@ non-identifier property keys, correctly escaped string literals, no Rust surface
 parse_module(text) -> Module(items=[...], errors=[...]).  Error recovery resynchronises at the next
 column-0 `export` / `import`, so one bad declaration neither hides the others nor blinds other monitors.
 """
+import re
+
 import unicodedata
 
 RESERVED = {
@@ -57,6 +59,20 @@ def _id_part(c):
 PUNCT3 = ("...", "===", "!==", "**=", "<<=", "&&=", "||=", "??=")
 PUNCT2 = ("=>", "==", "!=", "<=", "&&", "||", "??", "?.", "++", "--", "+=", "-=", "*=", "/=", "%=", "|=", "&=", "^=", "**", "<<")
 PUNCT1 = "{}()[];,<>+-*/%&|^!~?:=.@#"
+
+
+def js_number_name(val, raw):
+    """the property name a numeric literal key denotes: ToString of its value (12345678901234567890123 names "1.2345678901234568e+22")"""
+    try:
+        if val != val or val in (float("inf"), float("-inf")):
+            return raw
+        if val == int(val) and abs(val) < 1e21:
+            return str(int(val))
+        r = repr(val)
+        m = re.match(r"^(-?[0-9.]+)e([+-])0*(\d+)$", r)
+        return "%se%s%s" % (m.group(1), m.group(2), m.group(3)) if m else r
+    except (OverflowError, ValueError):
+        return raw
 
 
 def lex(src):
@@ -133,6 +149,9 @@ def lex(src):
             raw = src[i:j]
             if j < n and _id_start(src[j]):
                 err("identifier starts immediately after numeric literal %r" % raw, i)
+            if len(raw) > 1 and raw[0] == "0" and raw[1].isdigit():
+                # 007 / 08: legacy octal-like literals are a syntax error in module (strict) code
+                err("numeric literal %r with a leading zero (not allowed in modules)" % raw, i)
             try:
                 val = float(int(raw, 0)) if raw[:2].lower() in ("0x", "0b", "0o") else float(raw.replace("_", "").rstrip("n"))
             except ValueError:
@@ -736,7 +755,7 @@ class Parser:
                 elif tok.k == "str":
                     key, quoted = tok.v, True
                 elif tok.k == "num":
-                    key, quoted = tok.raw, "num"
+                    key, quoted = js_number_name(tok.v, tok.raw), "num"
                 else:
                     raise TsError("expected a property name (identifier, string or number)", tok)
                 self.eat()
@@ -1229,7 +1248,7 @@ class Parser:
                 elif tok.k == "str":
                     key, quoted = tok.v, True
                 elif tok.k == "num":
-                    key, quoted = tok.raw, "num"
+                    key, quoted = js_number_name(tok.v, tok.raw), "num"
                 else:
                     raise TsError("expected a property name (identifier, string or number) in object literal", tok)
                 self.eat()
